@@ -93,6 +93,8 @@ CL_SUMMARY = {
                                                       "at any time during the call (not linearizable)",
     "unsound-attribution": "a connection was attributed to an ID that is not configured with the client's cipher and secret",
     "valid-key-refused": "a stream encrypted under a configured key was not authenticated",
+    "lookup-crashed": "the handler panicked during the key search of a client that holds a configured key (StreamServe "
+                      "recovers, the connection is closed): the client is not authenticated",
     "effect-without-authentication": "a target was dialled / bytes were written / AddAuthenticated was reported for an "
                                      "unauthenticated connection",
     "invalid-opener-accepted": "opening bytes that are valid under no configured key were authenticated",
@@ -122,17 +124,17 @@ def validate_cl(ctx, trace_path, desc, *, behs=None, timeout=1200, signature_ext
         sl = scenario_slice(rows, res["drift"])
         ctx.notes.append("drift (%s): %s line %d differs from the mechanism layer of CipherList.tla: %s" % (
             res["dkind"], desc, res["drift"], json.dumps(abbreviate(sl[-1]))))
-    if res["viol"]:
-        sl = scenario_slice(rows, res["viol"])
-        sig = {"module": "CipherList", "kind": res["vkind"]}
+    for line, kind in res["viols"]:
+        sl = scenario_slice(rows, line)
+        sig = {"module": "CipherList", "kind": kind}
         sig.update(signature_extra or {})
-        rep = {"driver": desc, "trace_line": res["viol"], "scenario_trace": sl}
+        rep = {"driver": desc, "trace_line": line, "scenario_trace": sl}
         head = sl[0]
         if behs is not None and head.get("ev") == "Reset" and isinstance(head.get("beh"), int) and head["beh"] < len(behs):
             rep["behaviour"] = behs[head["beh"]]
             rep["beh_seed"] = head.get("seed")
             rep["pad"] = head.get("pad")
-        ctx.violation(sig, "%s (%s, trace line %d): %s" % (CL_SUMMARY.get(res["vkind"], res["vkind"]), desc, res["viol"],
+        ctx.violation(sig, "%s (%s, trace line %d): %s" % (CL_SUMMARY.get(kind, kind), desc, line,
                                                          json.dumps(abbreviate(sl[-1]))), rep)
     return res
 
